@@ -6,7 +6,7 @@ use crate::iso::{IsoDate, IsoTime};
 use crate::options::{ArithmeticOverflow, Disambiguation, OffsetDisambiguation};
 use crate::parsers::parse_date_time;
 use crate::provider::TimeZoneProvider;
-use crate::{TemporalResult, TemporalUnwrap};
+use crate::{TemporalError, TemporalResult, TemporalUnwrap};
 
 use ixdtf::parsers::records::UtcOffsetRecordOrZ;
 
@@ -64,25 +64,32 @@ impl RelativeTo {
 
         let (offset_nanos, is_exact) = result
             .offset
-            .map(|record| {
+            .map(|record| -> TemporalResult<(Option<i64>, bool)> {
                 let UtcOffsetRecordOrZ::Offset(offset) = record else {
-                    return (None, true);
+                    return Ok((None, true));
                 };
                 let hours_in_ns = i64::from(offset.hour) * 3_600_000_000_000_i64;
                 let minutes_in_ns = i64::from(offset.minute) * 60_000_000_000_i64;
                 let seconds_in_ns = i64::from(offset.second) * 1_000_000_000_i64;
                 let ns = offset
                     .fraction
-                    .and_then(|x| x.to_nanoseconds())
+                    .map(|x| {
+                        x.to_nanoseconds().ok_or(
+                            TemporalError::range()
+                                .with_message("fractional seconds exceeds nine digits."),
+                        )
+                    })
+                    .transpose()?
                     .unwrap_or(0);
-                (
+                Ok((
                     Some(
                         (hours_in_ns + minutes_in_ns + seconds_in_ns + i64::from(ns))
                             * i64::from(offset.sign as i8),
                     ),
                     false,
-                )
+                ))
             })
+            .transpose()?
             .unwrap_or((None, false));
 
         let calendar = result
